@@ -98,7 +98,7 @@ def parts():
         __import__('harness.scen_procstack', fromlist=['part']).part(5, 40, calls_only=True),
         # real AsyncServer / Server over thread and process servlets, incl. non-batching workers that run call() in their own
         # thread pool (num_stream_threads): every caller gets the result of its own input
-        __import__('harness.scen_backlog', fromlist=['part']).part(12, 150),
+        __import__('harness.scen_backlog', fromlist=['part']).part(14, 150),
     ]
 
 
